@@ -6,19 +6,24 @@ import MakoModel.Generated.ModFile
 * the file system of the module directory is a map `P → Option File` (`P` = the module path or a
   temp name); a file carries a `Content` (which source version it was generated from, the magic
   number baked in, whether all bytes are there, which write produced it, its size) and an mtime;
-* the writer is **the regenerated list** `Generated.ModFile.writerOps` (`mkstemp ; write ; close ;
-  rename` as read from the AST of `_compile_module_file`) interpreted primitive by primitive into
-  *atomic file-system actions* (`trace`); a `write` passes through a state in which only a prefix
-  of the bytes is there; per primitive a `Fate` says whether it completes, raises (Python unwinds:
-  the real code has no cleanup, the temp file stays) or - for `write` - writes short without raising
-  (the real code drops `os.write`'s result: unless `writeLoops` it carries on);
+* the writer is **the regenerated list** `Generated.ModFile.writerOps` (as read from the AST of
+  `_compile_module_file`: `mkstemp ; write ; close ; rename` - since 626444f the write goes through a
+  buffered file object inside a `with` block, the bytes are in the file for sure at its close, the move
+  follows the block) interpreted primitive by primitive into *atomic file-system actions* (`trace`); a
+  `write` passes through a state in which only a prefix of the bytes is there; per primitive a `Fate` says
+  whether it completes, raises (Python unwinds; the only cleanup is the close of the `with` block,
+  `closeOnRaise`; the temp file stays) or - for `write` - is short: code that writes until complete
+  (`writeLoops`, the file object does) finishes the write, code that dropped `os.write`'s result carried on
+  with a truncated file; after the write group the cached bytecode of the module path is removed
+  (`dropsBytecode`, 0e8e31e);
 * a crash is the truncation of the action sequence after `k` actions (`Plan.crash`);
 * `construct` is one `Template(filename=…, module_directory=…)`: staleness test, write group, load,
-  magic-number re-check, second write group, load; the loader goes through CPython's bytecode cache,
+  re-check (other magic number, or generated from another template file - b4d0d5f), second write group, load; the loader goes through CPython's bytecode cache,
   which is keyed by (mtime second, size) of the module file;
 * histories (`HOp`) modify the source with any mtime, delete / replace the module file, move the
   clock, construct (with any plan of faults);
-* concurrency: processes are action lists, a schedule is a list of process ids.
+* concurrency: writer processes are action lists (`Proc`), whole constructs are step machines (`CProc`, see
+  `ModFile/Conc.lean`); a schedule is a list of process ids.
 -/
 namespace MakoModel.ModFile
 open MakoModel.Generated.ModFile
